@@ -251,9 +251,14 @@ class C10(Monitor):
 
     def on_step(self, ctx):
         s = ctx.s
+        # "never *starts* ...": judged for the activities that began in this step. With fixed memberships that is the same
+        # as judging every state; it differs when a co-simulation client moves a vehicle to another fleet while it is engaged
+        started = {v.id for v in s.vehicles.values() if ctx.prev.vehicles.get(v.id) is None or ctx.prev.vehicles[v.id].vehicle_state.instance_id != v.vehicle_state.instance_id}
         for mech, msg, w in check_c10(s):
-            ctx.violate("C10", mech, msg, **w)
+            if w.get("vehicle") in started or not ctx.opts.get("cosim_ops"):
+                ctx.violate("C10", mech, msg, **w)
         ctx.count("c10_states_checked")
+        ctx.count("c10_activity_starts", len(started))
         for v in s.vehicles.values():
             n = aname(v)
             if n not in ("Idle", "Repositioning", "OutOfService"):
@@ -271,9 +276,13 @@ class C10(Monitor):
                 continue
             for i in ins:
                 self._check_proposal(ctx, name, i, sim)
+        # the drivers' own proposals (go to / charge at the base I am parked at, ...) are judged too, except in runs where a
+        # co-simulation client re-assigns vehicles to other fleets while they are parked: the statement speaks of the built-in
+        # dispatchers, and a driver proposing to charge where it already stands is not a pairing decision
+        moved_between_fleets = "change_membership" in ((ctx.opts.get("cosim_ops") or {}).get("kinds") or [])
         for ev in ctx.H.get("driver_instruction", []):
             i = ev["instruction"]
-            if i is not None:
+            if i is not None and not moved_between_fleets:
                 self._check_proposal(ctx, ev["driver"], i, ctx.prev)
         # rejected cross-fleet attempts seen (evidence that the workload is hostile enough)
         for name, t, ins, sim in ctx.gen_log:
